@@ -469,7 +469,9 @@ func (e *Engine) findBoundedBacktracker(haystack []byte) *Match {
 		if !e.asciiBoundedBacktracker.CanHandle(len(haystack)) {
 			return e.findNFA(haystack)
 		}
-		start, end, found := e.asciiBoundedBacktracker.Search(haystack)
+		state := e.getSearchState()
+		defer e.putSearchState(state)
+		start, end, found := e.asciiBoundedBacktracker.SearchWithState(haystack, state.backtracker)
 		if !found {
 			return nil
 		}
